@@ -20,6 +20,7 @@ RULE = (
     "key/reduction calls with argument identities, argument objects unchanged. Non-trivial: non-empty input "
     "with a tie, a callable or a non-default parameter, or an error ending; distinct by 64-bit hash of "
     "(aggregation, flavours, key sequences, callables, parameters)."
+    " Extensions of rounds 9-12: items whose truth value cannot be taken; keys returning one shared None, NaN (min/max) or objects knowing only < and ==; one key function object used by two aggregations in a row with different return kinds."
 )
 COMPONENTS = COMPONENTS_BASE
 ASSUMPTIONS = [
